@@ -452,7 +452,6 @@ func (R *Repository) updateCrlEntry(entry *Entry, newChains *core.CertificateCha
 
 	err = R.updateEntry(entry, err, store)
 	if err != nil {
-		R.deleteEntrySync(identifier)
 		return err
 	}
 	R.logger.Info("finished updating crl " + entry.CRLLoader.GetDescription())
@@ -493,9 +492,10 @@ func (R *Repository) updateEntry(entry *Entry, err error, store crlstore.CRLStor
 	defer entry.entryLock.Unlock()
 	err = entry.CRLStore.Update(store)
 	if err != nil {
-		entry.CRLStore.Close()
-		//mark as empty in case someone already acquired the entry and waits for a lock
-		entry.CRLStore = nil
+		//the entry keeps its store: it answers from the previous crl if the store could go back to it and with an
+		//error if not, it never disappears (a certificate listed in the previous crl must not be accepted because
+		//an update failed)
+		R.logger.Warn("failed to switch to the updated crl, keeping the previous one", zap.String("crl", entry.CRLLoader.GetDescription()), zap.Error(err))
 	} else {
 		//the entry now holds a completely read and accepted crl, whether it was loaded before or not
 		//(with fetch_background configured crls are not loaded by AddCRL)
